@@ -6,7 +6,7 @@ import regen
 
 
 def gen_cases(ctx):
-    n = 2500 if ctx.quick else 40000
+    n = 2500 if ctx.quick else 160000
     # a quarter of the values are drawn from a pool over EVERY value kind (payload-crate values, vectors, floats,
     # arrays, NULL of every variant; tools/richvalues.py): the renderer correspondence compares value_to_string
     # and the bound values for them too
